@@ -16,7 +16,7 @@ import sys
 from . import tlc, svccheck as K
 from .common import Verdict, main_wrapper, Machinery, seed
 
-POLICIES = ['eager', ('lag', 1), 'blocked']
+POLICIES = ['eager', ('lag', 1), 'blocked', 'starved']
 
 
 def main(tier='quick'):
@@ -49,7 +49,8 @@ def main(tier='quick'):
             for outcome in (0, 'EHE'):
                 for split in ('success', 'failure', 'mixed'):
                     add(K.run_naction(rng, pol, mid, ctx, outcome, 3, split), {'svc': 'n_action', 'mid': mid, 'ctx': ctx, 'outcome': outcome, 'split': split, 'policy': pol})
-                add(K.run_nevent(rng, pol, mid, ctx, outcome), {'svc': 'n_event_report', 'mid': mid, 'ctx': ctx, 'outcome': outcome, 'policy': pol})
+                for shape in ('success', 'failure', 'mixed'):
+                    add(K.run_nevent(rng, pol, mid, ctx, outcome, 2, shape), {'svc': 'n_event_report', 'mid': mid, 'ctx': ctx, 'outcome': outcome, 'shape': shape, 'policy': pol})
             for nm in (0, 1, 3):
                 ms = [(rng.choice([0xFF00, 0xFF01]), rng.choice([0, 30])) for _ in range(nm)]
                 add(K.run_find_scp(rng, pol, mid, ctx, ms, worklist=bool(nm % 2)), {'svc': 'qr_find_scp', 'mid': mid, 'ctx': ctx, 'matches': ms, 'policy': pol})
